@@ -63,12 +63,15 @@ func needsChild(spec *RunSpec) bool {
 		if spec.Mode == "real" && strings.HasPrefix(f.Path, "var/lib/containerd/") {
 			return true
 		}
-		if strings.HasSuffix(f.Path, ".plist") && strings.Contains(f.Src.Fix, "BinaryApp") {
+		if strings.HasSuffix(f.Path, ".plist") && (strings.Contains(f.Src.Fix, "BinaryApp") || f.Src.HasOps()) {
 			return true
 		}
 		// decompression bombs allocate gigabytes: keep them (and the memory watchdog they trip) out of the worker
 		if f.Src.Elf != nil && (f.Src.Elf.InflateMiB >= 64 || f.Src.Elf.Repeat > 1) {
 			return true
+		}
+		if strings.Contains(f.Src.Text, "${p1}${p1}") {
+			return true // exponential property expansion
 		}
 		for _, z := range f.Src.Zip {
 			if z.Src.Pad >= 64<<20 {
